@@ -93,7 +93,7 @@ def defuse_xml(fp: IOType, rewind: bool = True) -> IOType:
         for event, node in pulldom.parse(fp, parser):
             if event == pulldom.START_ELEMENT:
                 break
-    except SAXParseException:
+    except (SAXParseException, LookupError, ValueError):
         # the purpose is to defuse not to check xml source syntax, but a DTD that
         # can't be read to its end can't be said to be free of entity declarations
         if parser.in_doctype:
